@@ -10,7 +10,7 @@
      ([next_ref_fast], proved equal to [next_ref]), else 1 if it differs from the MODEL
      ([next_model]), else 0. *)
 From Kit.Lib Require Import Base.
-From Kit.C04 Require Import Cal Zone Str Parse Next Spec Bridge.
+From Kit.C04 Require Import Cal Zone Str Parse Next Spec Bridge Benign.
 From Coq Require Import ZArith NArith Lia Bool List String.
 Import ListNotations.
 Open Scope Z_scope.
@@ -226,10 +226,12 @@ Definition next_oracle (c : next_case) : bool := option_Z_eqb (nc_obs c) (next_s
    2: it is NOT the specification's value, and the faithful model does the same as the
       implementation - the recorded defect as modelled (may match a known finding).
    3: it is NOT the specification's value and the model does something else - never a known
-      finding. *)
+      finding. Also 3, whatever the model does, when the supplied table is BENIGN
+      ([dst_benign], Benign.v): there the model is PROVED to return the specification's value
+      (C04_next_dst_benign), so the recorded daylight-saving defects cannot be the cause. *)
 Definition check_next (c : next_case) : Z :=
   let agrees := next_result_eqb (next_model_out c) (result_of_option (nc_obs c)) in
-  if negb (next_oracle c) then (if agrees then 2 else 3)
+  if negb (next_oracle c) then (if agrees && negb (dst_benign (nc_zone c)) then 2 else 3)
   else if negb agrees then 1
   else 0.
 
